@@ -87,6 +87,9 @@ pub fn sizes(thorough: bool, seed: u64) -> Vec<usize> {
     if thorough {
         v.extend([65_535, (1 << 17) - 1, 1 << 19, (1 << 21) - 4, (1 << 21) + 3, (1 << 22) - 9, (1 << 23) - 2, (1 << 24) - 3, (1 << 25) + 1, (1 << 26) - 1, 100_000_003, (1 << 27) + 2]);
     }
+    // payloads that put the REMAINING LENGTH on either side of 2,097,151 / 2,097,152 (3 → 4 length bytes) for the
+    // small variable headers used here (3..7 bytes)
+    v.extend((1usize << 21) - 8..=(1 << 21) + 1);
     // thresholds the code itself mentions (harvested integer literals and their small products) above 64 KiB
     for n in crate::pgen::numeric_literals().iter().cloned().filter(|n| *n > 65_536 && *n <= (64 << 20)).take(if thorough { 24 } else { 6 }) {
         v.extend([n - 1, n + 1]);
@@ -431,7 +434,54 @@ fn sequence<F: Fam>(rep: &mut Report, what: String, packets: &[&F::P]) {
     }
 }
 
+/// OVER-LONG frames: the body of a small valid packet of every type, followed by padding INSIDE the frame up to
+/// several hundred KB / a few MB (a declared length no packet of that type needs). Every byte-string clause of
+/// C03/C05/C06/C11 applies to them as to any other complete frame.
+fn overlong<F: Fam>(rep: &mut Report, prop: &str, thorough: bool, seed: u64) {
+    let fl = crate::poracle::ByteFlags { c03: prop == "C03", c05: prop == "C05", c06: prop == "C06", c11: prop == "C11" };
+    let mut rng = Rng::new(seed ^ 0x0ee7);
+    let mut totals = vec![70_000usize, 327_698, 400_000, (1 << 21) + 7];
+    if thorough {
+        totals.extend([200_000, 327_697, 1 << 20, 5 << 20]);
+    }
+    let mut g = Rng::new(0x5eed_0ee7);
+    for t in 0..F::TYPES {
+        let p = F::gen(&mut g, t, crate::pgen::Sizes { big: false });
+        let enc = match F::encode(&p) {
+            Ok(e) if e.len() < 60_000 => e,
+            _ => continue,
+        };
+        let hl = header_len(enc.len());
+        for total in &totals {
+            for pad in [0u8, 0xff] {
+                let mut frame = vec![enc[0]];
+                let mut n = *total;
+                loop {
+                    let mut b = (n & 0x7f) as u8;
+                    n >>= 7;
+                    if n > 0 {
+                        b |= 0x80;
+                    }
+                    frame.push(b);
+                    if n == 0 {
+                        break;
+                    }
+                }
+                frame.extend_from_slice(&enc[hl..]);
+                let fh = frame.len() - (enc.len() - hl);
+                frame.resize(fh + total, pad);
+                frame.extend_from_slice(&[0xc0, 0x00]);
+                crate::poracle::bytes_pass::<F>(rep, &frame, &mut rng, &fl, &|_| Vec::new(), false);
+            }
+        }
+    }
+}
+
 pub fn large(rep: &mut Report, prop: &str, thorough: bool, seed: u64) {
+    if matches!(prop, "C03" | "C05" | "C06" | "C11") {
+        overlong::<V3>(rep, prop, thorough, seed);
+        overlong::<V5>(rep, prop, thorough, seed);
+    }
     let mut rng = Rng::new(seed ^ 0xb16);
     let ss = sizes(thorough, seed);
     if prop == "C08" {
